@@ -9,6 +9,7 @@ import (
 	"fmt"
 	"io"
 	"math/rand/v2"
+	"runtime"
 	"strconv"
 	"strings"
 	"time"
@@ -31,21 +32,21 @@ type c12Prog struct {
 	Len      int    `json:"len"`
 	Chunks   []int  `json:"chunks"`
 	DataSeed uint64 `json:"data_seed"`
-	Parts    int    `json:"partitions"`  // partitions tried for the valid stream
-	Exhaust  bool   `json:"exhaustive"`  // every single-byte mutation and truncation point
-	E2E      int    `json:"e2e"`         // end-to-end uploads through the gateway
+	Parts    int    `json:"partitions"` // partitions tried for the valid stream
+	Exhaust  bool   `json:"exhaustive"` // every single-byte mutation and truncation point
+	E2E      int    `json:"e2e"`        // end-to-end uploads through the gateway
 	// explicit single evaluation (replay / minimised form)
 	Only *c12Eval `json:"only,omitempty"`
 }
 
 type c12Eval struct {
-	Kind    string `json:"kind"` // valid | mutate | truncate | e2e
-	Off     int    `json:"off,omitempty"`
-	Byte    int    `json:"byte,omitempty"`
-	Frags   []int  `json:"frags,omitempty"`
-	Bufs    []int  `json:"bufs,omitempty"`
-	EOFWith bool   `json:"eof_with_data,omitempty"`
-	FragMode int   `json:"frag_mode,omitempty"`
+	Kind     string `json:"kind"` // valid | mutate | truncate | e2e
+	Off      int    `json:"off,omitempty"`
+	Byte     int    `json:"byte,omitempty"`
+	Frags    []int  `json:"frags,omitempty"`
+	Bufs     []int  `json:"bufs,omitempty"`
+	EOFWith  bool   `json:"eof_with_data,omitempty"`
+	FragMode int    `json:"frag_mode,omitempty"`
 }
 
 type c12 struct{ baseCheck }
@@ -389,12 +390,21 @@ func (st *c12Stream) run(wire []byte, ev *c12Eval, rng *rand.Rand, split map[str
 	bufs := ev.Bufs
 	bi := 0
 	for iter := 0; iter < 1000000; iter++ {
+		if iter%20000 == 19999 {
+			// the worker runs with the collector off; the decoder allocates a 4 KiB parse buffer per
+			// call while it is inside a chunk header, which with one-byte consumer buffers is GiBs
+			runtime.GC()
+		}
 		bs := 32768
 		if bi < len(bufs) {
 			bs = bufs[bi]
 			bi++
 		} else if len(bufs) > 0 {
 			bs = bufs[len(bufs)-1]
+		}
+		if iter >= 2000 && bs < 256 && len(wire) > 40000 {
+			// step budget: after 2000 tiny reads a long stream is read with a buffer of a few hundred bytes
+			bs += 256
 		}
 		if bs < 1 {
 			bs = 1
